@@ -17,7 +17,7 @@
                are covered);
      tuple keys: parts free of the tuple separator '_'. *)
 From Hio Require Import Base.Prelude Model.Lmdb Model.IoSub
-  Proofs.IoSubBlock Proofs.IoSubProofs Proofs.PlainProofs Proofs.IoSubTop.
+  Proofs.IoSubBlock Proofs.IoSubProofs Proofs.PlainProofs Proofs.IoSubTop Proofs.IoSubEnv.
 Local Open Scope N_scope.
 
 (* ---- plain store: full for str/bytes keys (LMDB's key domain: 1..511 bytes) ---- *)
@@ -72,6 +72,30 @@ Theorem C24_noninterference_partial : forall (U : bytes -> Prop) set B d s o k',
   getIoVals (fst (step_io set d o)) k' = getIoVals d k'.
 Proof. exact io_noninterference. Qed.
 Print Assumptions C24_noninterference_partial.
+
+(* ---- several stores in one environment (Subery: cans / drqs / dsqs are the named sub-dbs
+   "cans." / "drqs." / "dsqs.").  An op on one store leaves every other named sub-db untouched,
+   and inside any mixed history every store returns, and ends with, exactly what it returns and
+   ends with when its own ops are run alone: the theorems above apply store by store, also when
+   all stores use the same keys. ---- *)
+Theorem C24_subdbs_independent : forall E k o k',
+  k' <> k -> fst (estep E (k, o)) (subdb_name k') = E (subdb_name k').
+Proof. exact estep_other. Qed.
+Print Assumptions C24_subdbs_independent.
+
+Theorem C24_mixed_history_projects : forall k ops E,
+  proj_res k ops (snd (erun E ops)) = snd (run k (E (subdb_name k)) (proj_ops k ops)) /\
+  fst (erun E ops) (subdb_name k) = fst (run k (E (subdb_name k)) (proj_ops k ops)).
+Proof. exact erun_project. Qed.
+Print Assumptions C24_mixed_history_projects.
+
+Example C24_mixed_example :
+  let k := [[107]] in
+  snd (erun env0 [(Io, OAdd k [49]); (IoSet, OAdd k [49]); (IoSet, OAdd k [49]); (Plain, OPut k [[50]]);
+                  (Io, OAdd k [49]); (IoSet, ORem k); (Io, OGet k); (IoSet, OGet k); (Plain, OGet k)]) =
+  [Ok (RBool true); Ok (RBool true); Ok (RBool false); Ok (RBool true); Ok (RBool true); Ok (RBool true);
+   Ok (RList [[49]; [49]]); Ok (RList []); Ok (ROpt (Some [50]))].
+Proof. vm_compute. reflexivity. Qed.
 
 (* ---- the full statement is false (D27) ---- *)
 Definition kk : bytes := [107].                                   (* "k" *)
